@@ -92,6 +92,21 @@ def check_find(ctx, st, pt, t_text, q_text, expected, ignore_mods, tag):
         ctx.violation('ordered-containment-differs', {'target': t_text, 'query': q_text, 'expected': bool(expected),
                                                       'observed': got})
         return False
+    if not ignore_mods:
+        # the annotation methods are the same search through another entry point
+        ctx.decided()
+        try:
+            with ctx.eng.suspend():
+                qa, ta = pt.parse(q_text), pt.parse(t_text)
+                m1 = bool(qa.is_subsequence(ta))
+                m2 = list(qa.find_indices(ta))
+        except Exception as ex:
+            m1, m2 = f'{type(ex).__name__}', None
+        if m1 != bool(expected) or m2 != expected:
+            ctx.violation('annotation-methods-differ-from-search', {'target': t_text, 'query': q_text,
+                                                                    'expected': expected, 'is_subsequence': m1,
+                                                                    'find_indices': m2})
+            return False
     return True
 
 
